@@ -112,7 +112,11 @@ class BodyMixin:
         ''' The request body length as an integer. The client is responsible to
             set this header. Otherwise, the real length of the body is unknown
             and -1 is returned. In this case, :attr:`body` will be empty. '''
-        return int(self.environ.get('CONTENT_LENGTH') or -1)
+        try:
+            return int(self.environ.get('CONTENT_LENGTH') or -1)
+        except ValueError:
+            # not a number: a malformed request, not a server fault
+            self._raise(RequestError(), RequestError)
 
     @cache_in('environ[ ombott.request.content_type ]', read_only=True)
     def content_type(self):
